@@ -240,6 +240,12 @@ def analyse(scenario, result):
                                  'stop-all was requested started afterwards'))
         elif running_at_stop_all:
             pass        # it was the current job by then: stopped, not cleared
+        elif landed == 'after-job-finished' and stop_kind in (
+                'stop_current', 'agent_stop') and second_start is not None \
+                and second_start < stop_ret:
+            # the first job was over: the request legitimately hit the job
+            # behind it, which was the current one by then
+            labels.append('stop-hit-second-job')
         elif len(second_cmds) != 3:
             problems.append(('next-job-incomplete',
                              'the job behind the stopped one sent {} of its '
